@@ -621,7 +621,89 @@ func reportViolation(P string, s *obSummary, outDir string) (string, bool) {
 			found = true
 		}
 	}
+	if !found {
+		// scenario corpus of the property (concrete scenarios that pass on the unchanged tree):
+		// run once per check, shared by all violated obligations of this run
+		if sc := runScenarios(P); sc != nil {
+			content["scenario_corpus"] = sc
+			if f, ok := sc["failing_input_found"].(bool); ok && f {
+				found = true
+			}
+		}
+	}
 	return writeReplay(P, s.Name, content), found
+}
+
+var scenarioCache = map[string]map[string]interface{}{}
+var scenarioMu sync.Mutex
+
+// runScenarios injects every /verif/replay/scenarios/<P>__*__<pkgtag>_test.go into its package
+// (go test -overlay, nothing is written to /repo) and runs its TestVerifReplay<P>* tests.  A
+// failing scenario is a concrete input on which the real code violates the property; it is
+// evidence for the property as a whole, not for one particular obligation.
+func runScenarios(P string) map[string]interface{} {
+	scenarioMu.Lock()
+	defer scenarioMu.Unlock()
+	if r, ok := scenarioCache[P]; ok {
+		return r
+	}
+	files, _ := filepath.Glob(filepath.Join(verifRoot, "replay", "scenarios", P+"__*_test.go"))
+	if len(files) == 0 {
+		scenarioCache[P] = nil
+		return nil
+	}
+	sort.Strings(files)
+	type one struct {
+		file, out string
+		failed    bool
+	}
+	results := make([]one, len(files))
+	var wg sync.WaitGroup
+	sem := make(chan struct{}, 6)
+	for i, f := range files {
+		wg.Add(1)
+		sem <- struct{}{}
+		go func(i int, f string) {
+			defer wg.Done()
+			defer func() { <-sem }()
+			parts := strings.Split(strings.TrimSuffix(filepath.Base(f), "_test.go"), "__")
+			pkgDir := "."
+			if len(parts) == 3 && parts[2] != "root" {
+				pkgDir = strings.ReplaceAll(parts[2], "-", "/")
+			}
+			target := filepath.Join(repoRoot, pkgDir, "zz_verif_scenario_test.go")
+			tmp, _ := os.CreateTemp("", "overlay-*.json")
+			data, _ := json.Marshal(map[string]interface{}{"Replace": map[string]string{target: f}})
+			tmp.Write(data)
+			tmp.Close()
+			defer os.Remove(tmp.Name())
+			cmd := exec.Command("go", "test", "-overlay", tmp.Name(), "-vet=off", "-count=1", "-timeout", "120s", "-run", "^TestVerifReplay"+P, ".")
+			cmd.Dir = filepath.Join(repoRoot, pkgDir)
+			cmd.Env = append(os.Environ(), "GOFLAGS=-mod=mod", "GOPROXY=off", "GOTOOLCHAIN=auto")
+			out, err := cmd.CombinedOutput()
+			o := string(out)
+			if len(o) > 1500 {
+				o = o[:1500] + "\n...(truncated)"
+			}
+			results[i] = one{filepath.Base(f), o, err != nil && (strings.Contains(o, "--- FAIL") || strings.Contains(o, "panic: test timed out"))}
+		}(i, f)
+	}
+	wg.Wait()
+	var failing []map[string]string
+	passed := 0
+	for _, r := range results {
+		if r.failed {
+			failing = append(failing, map[string]string{"scenario": r.file, "output": r.out})
+		} else {
+			passed++
+		}
+	}
+	res := map[string]interface{}{
+		"failing_input_found": len(failing) > 0, "scenarios_run": len(files), "scenarios_passed": passed, "failing": failing,
+		"note": "scenario corpus of property " + P + " (/verif/replay/scenarios, each passes on the unchanged tree), run against the real code with go test -overlay; a failing scenario is a concrete failing input for the property as a whole",
+	}
+	scenarioCache[P] = res
+	return res
 }
 
 // runReplayDriver runs /verif/replay/<P>_replay_test.go (if present) inside the
